@@ -164,13 +164,13 @@ def rule_c14(an, res):
                         lp, segs = next((lp, segs) for lp, segs in top.loops if is_age_loop(segs))
                         ok = isinstance(r, tuple) and r[0] == 'lv' and r[2] == lp.id
                         if ok:
-                            name = r[1]
-                            init = [e for e in top.effects if e.kind == 'LOCAL' and e.how == 'decl' and e.loc[1] == name]
+                            name = ops.tally_var(r)
+                            init = ops.local_writes(top, name, decl=True)
                             ok = len(init) == 1 and init[0].val == ('int', 0)
                             for s in segs:
-                                incs = [e for e in s.effects if e.kind == 'LOCAL' and e.loc[1] == name]
+                                incs = ops.local_writes(s, name)
                                 want = 1 if s.effs('STAMP') else 0
-                                good = [e for e in incs if isinstance(e.val, tuple) and e.val[0] == 'add' and e.val[2] == 1]
+                                good = [e for e in incs if ops.is_increment(e, name)]
                                 if len(incs) != want or len(good) != want:
                                     ok = False
                     res.ob('R-AGE-TALLY', ok=ok)
@@ -378,7 +378,10 @@ def rule_c15(an, res):
                             ok, why = False, '%d removals' % len(unb)
                         else:
                             v = unb[0].ent
-                            if not (v.kind == 'RANDPOS' and v.arg == d.sym[1]):
+                            from rules_misc import raw_draw_is_bound_slot
+                            if v.kind == 'RAWRNG' and v.arg == d.sym[1] and raw_draw_is_bound_slot(seg, v):
+                                pass      # full cache: slot indices and open-list positions range over the same, entirely bound, set
+                            elif not (v.kind == 'RANDPOS' and v.arg == d.sym[1]):
                                 ok, why = False, ('the drawn position is used as %s instead of being mapped through the open list '
                                                   '(victim must be m_open_list[position])' % v.kind)
                             # removal before the bind
